@@ -296,7 +296,7 @@ Qed.
 Theorem parse_program_never_panics ts : parse_program autovars switches env_errors parse_format ts <> Panic.
 Proof.
   unfold parse_program. intros H.
-  destruct (parse_tops autovars switches env_errors parse_format (S (List.length ts)) _ ts) eqn:E; try discriminate.
+  destruct (parse_tops autovars switches env_errors parse_format (5 * List.length ts + 4) _ ts) eqn:E; try discriminate.
   - cbn beta iota zeta in H. destruct (dup_text [] _); [discriminate|]. destruct (dup_mov [] _); discriminate.
   - exact (parse_tops_np _ _ _ E).
 Qed.
